@@ -107,3 +107,22 @@ Definition is_ascii_whitespace (b : N) : bool :=
 Definition opt_is_none {A} (o : option A) : bool := match o with None => true | Some _ => false end.
 Definition opt_is_some {A} (o : option A) : bool := match o with None => false | Some _ => true end.
 Definition opt_unwrap_or {A} (o : option A) (d : A) : A := match o with Some x => x | None => d end.
+
+(* `for x in it { .. }` over a value whose `Iterator::next` is itself translated
+   ([next it] = the new iterator and the item, [None] = panic): the items it yields until the
+   first `None` item.  Out of fuel = None.  (The loop body cannot touch the iterator -- it is
+   moved into the loop -- so collecting the items first is the same computation.) *)
+Fixpoint iter_drain {I A : Type} (next : I -> option (I * option A)) (fuel : nat) (it : I) : option (list A) :=
+  match fuel with
+  | O => None
+  | S f =>
+      match next it with
+      | None => None
+      | Some (_, None) => Some []
+      | Some (it', Some x) =>
+          match iter_drain next f it' with
+          | Some xs => Some (x :: xs)
+          | None => None
+          end
+      end
+  end.
